@@ -21,7 +21,7 @@ func (n *BoxTypeNode) splice(loc *position.Location, args *[]Node, unquote bool)
 	return &BoxTypeNode{
 		TypedNodeBase: TypedNodeBase{loc: position.SpliceLocation(loc, n.loc, unquote), typ: n.typ},
 		Immutable:     n.Immutable,
-		TypeNode:      n.TypeNode.splice(loc, args, unquote).(ComplexConstantNode),
+		TypeNode:      n.TypeNode.splice(loc, args, unquote).(TypeNode),
 	}
 }
 
